@@ -141,7 +141,9 @@ RowsFor(p, vs) ==
     Row(p, "chat", "sb", "play", SbPlayId("chat", p), << F("message", <<"String">>, Hello) >>),
     Row(p, "pos_look", "cb", "play", CbPlayId("pos_look", p), PosLookCbFields(p, vs)),
     Row(p, "pos_look", "sb", "play", SbPlayId("pos_look", p), PosLookSbFields(p, vs)),
-    Row(p, "disconnect", "cb", "play", CbPlayId("disconnect", p), << F("json_data", <<"String">>, Json1) >>) }
+    \* second value set: a reason of 16400 two-byte characters - within the protocol's 32767 characters, beyond 32767 bytes
+    Row(p, "disconnect", "cb", "play", CbPlayId("disconnect", p),
+        << F("json_data", <<"String">>, IF vs = 1 THEN Json1 ELSE [i \in 1..16400 |-> 233]) >>) }
   \cup (IF p >= 107 THEN { Row(p, "teleport_confirm", "sb", "play", 0, << F("teleport_id", <<"VarInt">>, IF vs = 1 THEN V7(1) ELSE V7(16384)) >>) } ELSE {})
 
 \* rows deliberately not stated: none of the listed core packets is omitted; the plugin-channel login packets
